@@ -10,10 +10,12 @@ import (
 
 func main() {
 	cli.Main(map[string]cli.RunFn{
-		"extract":  func(out string, _ int64, _ string) error { return extract.Run(cli.Repo, out) },
-		"smoke":    engnode.Smoke,
-		"node":     engnode.Run,
-		"reshare":  engnode.RunReshare,
-		"httpwait": enghttp.Run,
+		"extract":   func(out string, _ int64, _ string) error { return extract.Run(cli.Repo, out) },
+		"smoke":     engnode.Smoke,
+		"node":      engnode.Run,
+		"reshare":   engnode.RunReshare,
+		"serve":     engnode.RunServe,
+		"bootstrap": engnode.RunBootstrap,
+		"httpwait":  enghttp.Run,
 	})
 }
